@@ -9,28 +9,31 @@
      Quiescent(tok, nin) -- a sample of len(redrawCh), len(inputCh) taken under redrawMutex
      Reset            -- a new loop (runs are concatenated)
    Unlogged internal steps placed by TLC: Effect (the channel/flag effect of a call, between its
-   Start and End), Extract, SelRedraw, PollRetEmpty, PollInEmpty.
+   Start and End), Extract, SelRedraw, Recv (the loop's receive from inputCh: it precedes the Handle
+   event, which is logged from inside the callback; a Quiescent sample may fall between the two and
+   then sees the channel already shorter), PollRetEmpty, PollInEmpty.
    Every invariant is evaluated in every inferred state. *)
 EXTENDS Integers, Sequences, TLC, Json, FiniteSets
 Trace == ndJsonDeserialize("trace.ndjson")
 VARIABLES l, inputCh, tok, full, retCh, lpc, result, curFull,
+          got,         \* the event received from inputCh and not yet handed to the handle callback (0: none)
           pend,        \* producer p -> [k, arg, done]  (at most one outstanding call per producer)
           reqs, served, fullPending
-vars == <<l, inputCh, tok, full, retCh, lpc, result, curFull, pend, reqs, served, fullPending>>
+vars == <<l, inputCh, tok, full, retCh, lpc, result, curFull, got, pend, reqs, served, fullPending>>
 NoPend == [p \in {} |-> 0]
 Init == /\ l = 1 /\ curFull = FALSE /\ inputCh = <<>> /\ tok = 0 /\ full = FALSE /\ retCh = <<>> /\ lpc = "top" /\ result = ""
-        /\ pend = NoPend /\ reqs = 0 /\ served = 0 /\ fullPending = FALSE
+        /\ pend = NoPend /\ reqs = 0 /\ served = 0 /\ fullPending = FALSE /\ got = 0
 Is(e) == l <= Len(Trace) /\ Trace[l].ev = e
 Adv == l' = l + 1
 T == Trace[l]
 Reset == /\ Is("Reset") /\ Adv
          /\ curFull' = FALSE /\ inputCh' = <<>> /\ tok' = 0 /\ full' = FALSE /\ retCh' = <<>> /\ lpc' = "top" /\ result' = ""
-         /\ pend' = NoPend /\ reqs' = 0 /\ served' = 0 /\ fullPending' = FALSE
+         /\ pend' = NoPend /\ reqs' = 0 /\ served' = 0 /\ fullPending' = FALSE /\ got' = 0
 Start(k) == /\ T.p \notin DOMAIN pend
             /\ pend' = [q \in DOMAIN pend \cup {T.p} |->
                           IF q = T.p THEN [k |-> k, arg |-> (IF k = "redraw" THEN T.full ELSE IF k = "input" THEN T.e ELSE T.b), done |-> FALSE]
                           ELSE pend[q]]
-Others == <<inputCh, tok, full, retCh, lpc, result, reqs, served, fullPending, curFull>>
+Others == <<inputCh, tok, full, retCh, lpc, result, reqs, served, fullPending, curFull, got>>
 RedrawStart == Is("RedrawStart") /\ Adv /\ Start("redraw") /\ UNCHANGED Others
 InputStart  == Is("InputStart")  /\ Adv /\ Start("input")  /\ UNCHANGED Others
 ReturnStart == Is("ReturnStart") /\ Adv /\ Start("return") /\ UNCHANGED Others
@@ -48,32 +51,35 @@ Effect == \E p \in DOMAIN pend :
                                             /\ UNCHANGED <<tok, full, retCh, reqs, fullPending>>
                  [] pend[p].k = "return" -> /\ retCh' = (IF retCh = <<>> THEN <<pend[p].arg>> ELSE retCh)
                                             /\ UNCHANGED <<tok, full, inputCh, reqs, fullPending>>
-            /\ UNCHANGED <<l, lpc, result, served, curFull>>
+            /\ UNCHANGED <<l, lpc, result, served, curFull, got>>
 \* loop
 Extract == /\ lpc = "top" /\ curFull' = full /\ full' = FALSE /\ lpc' = "drawing"
-           /\ UNCHANGED <<l, inputCh, tok, retCh, result, pend, reqs, served, fullPending>>
+           /\ UNCHANGED <<l, inputCh, tok, retCh, result, pend, reqs, served, fullPending, got>>
 Draw == /\ Is("Draw") /\ ~T.final /\ Adv /\ lpc = "drawing" /\ T.full = curFull
         /\ lpc' = "select" /\ served' = reqs
         /\ fullPending' = (IF T.full THEN full ELSE fullPending)
-        /\ UNCHANGED <<inputCh, tok, full, retCh, result, curFull, pend, reqs>>
+        /\ UNCHANGED <<inputCh, tok, full, retCh, result, curFull, pend, reqs, got>>
 SelRedraw == /\ lpc = "select" /\ tok = 1 /\ tok' = 0 /\ lpc' = "top"
-             /\ UNCHANGED <<l, inputCh, full, retCh, result, pend, reqs, served, fullPending, curFull>>
-Handle == /\ Is("Handle") /\ Adv /\ lpc \in {"select", "pollin"} /\ inputCh # <<>> /\ Head(inputCh) = T.e
-          /\ inputCh' = Tail(inputCh) /\ lpc' = "afterhandle"
-          /\ UNCHANGED <<tok, full, retCh, result, pend, reqs, served, fullPending, curFull>>
+             /\ UNCHANGED <<l, inputCh, full, retCh, result, pend, reqs, served, fullPending, curFull, got>>
+Recv ==   /\ lpc \in {"select", "pollin"} /\ inputCh # <<>>
+          /\ got' = Head(inputCh) /\ inputCh' = Tail(inputCh) /\ lpc' = "recv"
+          /\ UNCHANGED <<l, tok, full, retCh, result, pend, reqs, served, fullPending, curFull>>
+Handle == /\ Is("Handle") /\ Adv /\ lpc = "recv" /\ got = T.e
+          /\ got' = 0 /\ lpc' = "afterhandle"
+          /\ UNCHANGED <<inputCh, tok, full, retCh, result, pend, reqs, served, fullPending, curFull>>
 PollRetEmpty == /\ lpc = "afterhandle" /\ retCh = <<>> /\ lpc' = "pollin"
-                /\ UNCHANGED <<l, inputCh, tok, full, retCh, result, pend, reqs, served, fullPending, curFull>>
+                /\ UNCHANGED <<l, inputCh, tok, full, retCh, result, pend, reqs, served, fullPending, curFull, got>>
 PollInEmpty == /\ lpc = "pollin" /\ inputCh = <<>> /\ lpc' = "top"
-               /\ UNCHANGED <<l, inputCh, tok, full, retCh, result, pend, reqs, served, fullPending, curFull>>
+               /\ UNCHANGED <<l, inputCh, tok, full, retCh, result, pend, reqs, served, fullPending, curFull, got>>
 FinalDraw == /\ Is("Draw") /\ T.final /\ Adv /\ lpc \in {"select", "afterhandle"} /\ retCh # <<>>
              /\ result' = Head(retCh) /\ retCh' = <<>> /\ lpc' = "final"
-             /\ UNCHANGED <<inputCh, tok, full, pend, reqs, served, fullPending, curFull>>
+             /\ UNCHANGED <<inputCh, tok, full, pend, reqs, served, fullPending, curFull, got>>
 Returned == /\ Is("Returned") /\ Adv /\ lpc = "final" /\ T.b = result /\ lpc' = "returned"
-            /\ UNCHANGED <<inputCh, tok, full, retCh, result, pend, reqs, served, fullPending, curFull>>
+            /\ UNCHANGED <<inputCh, tok, full, retCh, result, pend, reqs, served, fullPending, curFull, got>>
 Quiescent == /\ Is("Quiescent") /\ Adv /\ T.tok = tok /\ T.nin = Len(inputCh)
-             /\ UNCHANGED <<inputCh, tok, full, retCh, lpc, result, pend, reqs, served, fullPending, curFull>>
+             /\ UNCHANGED <<inputCh, tok, full, retCh, lpc, result, pend, reqs, served, fullPending, curFull, got>>
 Next == Extract \/ Reset \/ RedrawStart \/ InputStart \/ ReturnStart \/ AnyEnd \/ Effect \/ Draw \/ SelRedraw
-        \/ Handle \/ PollRetEmpty \/ PollInEmpty \/ FinalDraw \/ Returned \/ Quiescent
+        \/ Recv \/ Handle \/ PollRetEmpty \/ PollInEmpty \/ FinalDraw \/ Returned \/ Quiescent
 Spec == Init /\ [][Next]_vars
 HW == TLCSet(1, IF TLCGet(1) > l THEN TLCGet(1) ELSE l)
 Accepted == PrintT(<<"HW", TLCGet(1)>>) /\ TLCGet(1) = Len(Trace) + 1
